@@ -96,3 +96,18 @@ def flag_rule(ctx: Ctx, R: Runner, rule: str) -> None:
                f"`{u(st)}` must be the last, unconditional statement of the evaluator, so that a failed evaluation is retried rather than half-visible")
     ctx.ob(rule, "flag:initialised", init_ok, R.cls.loc(), "the flag is initialised to False in __init__", trivial=True)
     ctx.ob(rule, "flag:set-by-evaluator", any(f is ev for f, _ in stores), ev.loc(), "the evaluator sets the flag", trivial=True)
+
+
+def session_store(prog: Prog):
+    """(registration method, name of the provider attribute it stores into): the session-level metadata map, found through the public
+    registration method rather than through the attribute's (private) name."""
+    P = prog.try_cls("core.metadata_provider.MetaDataProvider")
+    if P is None:
+        raise AnalysisError("MetaDataProvider not found")
+    reg = P.methods.get("register_session_metadata")
+    if reg is None:
+        raise AnalysisError("MetaDataProvider.register_session_metadata not found")
+    for n in ast.walk(reg.node):
+        if isinstance(n, ast.Subscript) and isinstance(n.ctx, ast.Store) and is_self_attr(n.value):
+            return reg, n.value.attr
+    raise AnalysisError("register_session_metadata does not store into a map held by the provider")
